@@ -30,6 +30,9 @@ type C13Case struct {
 	Via     string   `json:"via"`             // id | file | all
 	// Github: the rewriting runs are made with -o github (the output format must not change what is written)
 	Github bool `json:"github,omitempty"`
+	// RootName: name of the CRS root's directory ("" = crs); names with glob metacharacters come with a sibling
+	// directory `crs1` that such a pattern matches and that holds a test file for the same rule
+	RootName string `json:"root_name,omitempty"`
 	// Dir: name of the test file's directory below tests/regression/tests ("" = REQUEST-<category>-X); any name is legal
 	Dir string   `json:"dir,omitempty"`
 	Lab []string `json:"labels,omitempty"`
@@ -194,6 +197,10 @@ func genC13(t *rapid.T) C13Case {
 	if c.Dir != "" {
 		lab["directory-without-category-number"] = true
 	}
+	c.RootName = rapid.SampledFrom([]string{"", "", "", "", "crs[12]", "crs?", "crs*", "crs[!x]"}).Draw(t, "rootname")
+	if c.RootName != "" {
+		lab["root-name-with-glob-metacharacter"] = true
+	}
 	lab["via:"+c.Via] = true
 	c.Lab = labelsOf(lab)
 	return c
@@ -213,7 +220,14 @@ func checkC13(c C13Case) Outcome {
 	tree := cli.Tree{"regex-assembly/": "", rel: content, other: otherContent, later: laterContent, "tests/regression/tests/REQUEST-999-Z/notes.txt": "not a test file\n",
 		"tests/regression/tests/" + c.dir() + "/.gitkeep": "", "tests/regression/tests/" + c.dir() + "/0-readme.txt": "  - test_id: 99\n",
 		"tests/regression/tests/" + c.dir() + "/900001.yaml.orig": "  - test_id: 99\n", "tests/regression/tests/.DS_Store": "x"}
-	root := sb.Path("crs")
+	root, rootRel := sb.Path("crs"), "crs"
+	if c.RootName != "" {
+		root, rootRel = sb.Path(c.RootName), c.RootName
+		sibling := cli.Tree{"regex-assembly/": "", rel: "---\ntests:\n  - test_id: 41\n  - test_id: 42\n"}
+		if err := sibling.Write(sb.Path("crs1")); err != nil {
+			panic(err)
+		}
+	}
 	if err := tree.Write(root); err != nil {
 		panic(err)
 	}
@@ -246,15 +260,19 @@ func checkC13(c C13Case) Outcome {
 		return out
 	}
 	r1 := run(false)
-	got := sb.Read("crs/" + rel)
+	got := sb.Read(rootRel + "/" + rel)
 	out.Detail["after"], out.Detail["exit"] = got, r1.Exit
 	if r1.Exit != 0 {
 		out.Detail["stderr"] = tailLines(r1.Stderr, 6)
 		out.Violation = fmt.Sprintf("renumber-tests fails (exit %d)", r1.Exit)
 		return out
 	}
-	if sb.Read("crs/"+other) != otherContent || sb.Read("crs/"+later) != laterContent {
+	if sb.Read(rootRel+"/"+other) != otherContent || sb.Read(rootRel+"/"+later) != laterContent {
 		out.Violation = "a correctly numbered file of another rule was changed"
+		return out
+	}
+	if c.RootName != "" && sb.Read("crs1/"+rel) != "---\ntests:\n  - test_id: 41\n  - test_id: 42\n" {
+		out.Violation = "a test file in another checkout (a sibling directory of the CRS root) was changed"
 		return out
 	}
 	if got != want {
@@ -289,7 +307,7 @@ func checkC13(c C13Case) Outcome {
 	chk1 := run(true)
 	r2 := run(false)
 	if d := cli.Diff(snap, cli.Snap(root), true); len(d) > 0 {
-		out.Detail["after_second"] = sb.Read("crs/" + rel)
+		out.Detail["after_second"] = sb.Read(rootRel + "/" + rel)
 		out.Violation = fmt.Sprintf("a second run (or --check) changed the tree again: %v", d)
 		return out
 	}
